@@ -16,7 +16,8 @@ from ..env import scratch_dir
 
 WINDOW = [datetime.date(2020, 2, 27), datetime.date(2020, 2, 28), datetime.date(2020, 2, 29),
           datetime.date(2020, 3, 2), datetime.date(2020, 3, 3)]
-TIMES = [(0, 0, 0), (14, 29, 59), (14, 30, 0), (14, 30, 1), (20, 59, 59), (21, 0, 0), (21, 0, 1), (23, 59, 0)]
+TIMES = [(0, 0, 0), (14, 29, 59), (14, 29, 59, 750000), (14, 30, 0), (14, 30, 0, 250000), (14, 30, 1), (20, 59, 59),
+         (20, 59, 59, 600000), (21, 0, 0), (21, 0, 0, 400000), (21, 0, 1), (23, 59, 0)]
 ONE = datetime.timedelta(days=1)
 
 
@@ -77,8 +78,8 @@ def query_times(dates):
     end = max(dates) + 3 * ONE
     out = []
     while d <= end:
-        for hh, mm, ss in TIMES:
-            out.append(datetime.datetime(d.year, d.month, d.day, hh, mm, ss, tzinfo=datetime.timezone.utc))
+        for hms in TIMES:
+            out.append(datetime.datetime(d.year, d.month, d.day, *hms, tzinfo=datetime.timezone.utc))
         d += ONE
     return out
 
